@@ -363,7 +363,23 @@ def gen_grammar(rng: random.Random, feats: set):
                 ("seq", [("str", "/"), ("str", "/")]),
                 ("seq", [("str", "#"), ("id", "r2", None)]) if rng.random() < 0.3 else ("str", "#"),
             ])
-            rules["COMMENT"] = (rng.choice(["_", "_", ""]), body)
+            if "ws" in feats and rng.random() < 0.5:
+                # a comment that overlaps the whitespace rule: which trivia rule is tried first is then visible
+                body = rng.choice([
+                    ("seq", [("opt", ("str", " ")), ("str", "#")]),
+                    ("seq", [("str", " "), ("str", "#")]),
+                    ("choice", [("seq", [("str", " "), ("str", " ")]), ("str", "#")]),
+                ])
+                rules["COMMENT"] = (rng.choice(["_", "", ""]), body)
+            else:
+                rules["COMMENT"] = (rng.choice(["_", "_", ""]), body)
+        triv = [n for n in ("WHITESPACE", "COMMENT") if n in rules]
+        if triv and rng.random() < 0.6:
+            # definition order of the trivia rules among the rules is free in a grammar file
+            rng.shuffle(triv)
+            rest = [n for n in rules if n not in triv]
+            order = triv + rest if rng.random() < 0.6 else rest[:1] + triv + rest[1:]
+            rules = {n: rules[n] for n in order}
         if well_formed(rules):
             return rules
     raise RuntimeError("no well-formed grammar found")
@@ -388,7 +404,7 @@ def gen_sentence(rng: random.Random, rules, e, depth=0) -> str:  # noqa: PLR0911
     if depth > 8:
         return ""
     r = lambda x: gen_sentence(rng, rules, x, depth + 1)  # noqa: E731
-    tr = rng.choice(["", "", " ", "  ", "#"]) if ("WHITESPACE" in rules or "COMMENT" in rules) else ""
+    tr = rng.choice(["", "", " ", "  ", "#", " #", "  #", "# "]) if ("WHITESPACE" in rules or "COMMENT" in rules) else ""
     if k == "str":
         return e[1]
     if k == "ci":
@@ -692,6 +708,19 @@ def gen_squash_template(rng: random.Random):
             ("range", "a", "b"), ("range", "b", "c"), ("id", "ASCII_DIGIT", None), ("id", "ASCII_HEX_DIGIT", None),
             ("str", "1a"), ("str", "A"), ("id", "NEWLINE", None), ("str", "")]
     alts = rng.sample(pool, rng.choice([2, 3, 3, 4, 5]))
+    if rng.random() < 0.4:
+        # boundary mode: a range (or class) next to a longer literal whose first character sits on, just inside or just
+        # outside the range's bounds - whether the optimizer may reorder them hinges on exactly that character
+        lo = rng.choice("abc1")
+        hi = chr(ord(lo) + rng.choice([0, 1, 2]))
+        first = rng.choice([lo, hi, chr(ord(lo) - 1), chr(ord(hi) + 1), chr((ord(lo) + ord(hi)) // 2)])
+        lit = ("str", first + rng.choice(["a", "b", "x", "1"])) if rng.random() < 0.8 else ("ci", first + "a")
+        pair = [("range", lo, hi), lit]
+        if rng.random() < 0.3:
+            pair.reverse()
+        extra = rng.sample(pool, rng.choice([0, 0, 1, 2]))
+        at = rng.randrange(len(extra) + 1)
+        alts = extra[:at] + pair[:1] + extra[at:] + pair[1:] if rng.random() < 0.5 else extra[:at] + pair + extra[at:]
     if rng.random() < 0.25:
         alts = alts[:1] + [("group", ("choice", alts[1:3]), None)] + alts[3:] if len(alts) > 3 else alts
     ch = ("group", ("choice", alts), None)
